@@ -25,7 +25,7 @@ CONSTANTS
   FRESH = TRUE
   PREFUND = 0
   PREDEL = 0
-  EVENTS = {"Delegate","Undelegate","Slash","EndBlock","Deposit"}
+  EVENTS = {"Delegate","Undelegate","Slash","EndBlock","Deposit","MsgDelegate","MsgUndelegate"}
   FAILBUDGET = 99
   WANTED <- c_WANTED
 VIEW View
